@@ -26,10 +26,12 @@ type Script struct {
 	dts     map[string]string // generated datatype declarations by sort name
 	dtOrder []string
 	decls   map[string]bool
+	zarrs   map[string][2]string // zero-filled array constants: name -> (element sort, zero term)
+	noDef   int                  // > 0: def() leaves terms un-named (canonical texts)
 }
 
 func newScript() *Script {
-	return &Script{lits: map[string]string{}, dts: map[string]string{}, decls: map[string]bool{}}
+	return &Script{lits: map[string]string{}, dts: map[string]string{}, decls: map[string]bool{}, zarrs: map[string][2]string{}}
 }
 
 func (s *Script) fresh(p string) string {
@@ -55,7 +57,7 @@ func sanitize(p string) string {
 
 // def names a compound term so that it is shared rather than duplicated.
 func (s *Script) def(p string, t T) T {
-	if !strings.HasPrefix(t.S, "(") || len(t.S) < 24 {
+	if !strings.HasPrefix(t.S, "(") || len(t.S) < 24 || s.noDef > 0 {
 		return t
 	}
 	n := s.fresh(p)
@@ -137,6 +139,29 @@ func (s *Script) litDecls() string {
 			} else {
 				sb.WriteString(fmt.Sprintf("(assert (not (pre %s %s)))\n", na, nb))
 			}
+		}
+	}
+	return sb.String()
+}
+
+// zeroArr names the all-zero array of an element sort (declared in the prelude:
+// with a quantified axiom in the proof encoding, as a constant array in the
+// counterexample encoding where the zero term is a value).
+func (s *Script) zeroArr(elemSort, zero string) string {
+	n := "zarr." + sanitize(elemSort)
+	s.zarrs[n] = [2]string{elemSort, zero}
+	return n
+}
+
+func (s *Script) zarrDecls(strMode bool) string {
+	var sb strings.Builder
+	for _, n := range sortedKeys(s.zarrs) {
+		z := s.zarrs[n]
+		if strMode {
+			z[1] = strings.ReplaceAll(strings.ReplaceAll(z[1], " eps)", " \"\")"), " eps ", " \"\" ")
+			sb.WriteString(fmt.Sprintf("(define-fun %s () (Array Int %s) ((as const (Array Int %s)) %s))\n", n, z[0], z[0], z[1]))
+		} else {
+			sb.WriteString(fmt.Sprintf("(declare-const %s (Array Int %s))\n(assert (forall ((i Int)) (! (= (select %s i) %s) :pattern ((select %s i)))))\n", n, z[0], n, z[1], n))
 		}
 	}
 	return sb.String()
@@ -320,7 +345,7 @@ const preludeBytesStr = `(define-sort B () String)
 const preludeCommon = `(declare-datatypes ((NB 0)) (((mk (isnil Bool) (val B)))))
 (declare-datatypes ((Slc 0)) (((slc (ptr Int) (off Int) (len_ Int) (snil Bool)))))
 (declare-sort F64 0)
-(declare-datatypes ((Any 0)) ((ANil (ABool (a.b Bool)) (AInt (a.it Int) (a.i Int)) (AFlt (a.ft Int) (a.f F64)) (AStr (a.s NB)) (ABytes (a.y NB)) (ARef (a.rt Int) (a.r Int)) (ASlc (a.st Int) (a.sl Slc)) (AOther (a.ot Int) (a.o Int)))))
+(declare-datatypes ((Any 0)) (((ANil) (ABool (a.b Bool)) (AInt (a.it Int) (a.i Int)) (AFlt (a.ft Int) (a.f F64)) (AStr (a.s NB)) (ABytes (a.y NB)) (ARef (a.rt Int) (a.r Int)) (ASlc (a.st Int) (a.sl Slc)) (AOther (a.ot Int) (a.o Int)))))
 (declare-fun dyn (Int) Int)
 (define-fun cmp ((a B) (b B)) Int (ite (= a b) 0 (ite (le a b) (- 1) 1)))
 (define-fun lt ((a B) (b B)) Bool (and (le a b) (not (= a b))))
